@@ -315,6 +315,38 @@ func cmdCodecCheck(args []string) int {
 			}
 		}
 	}
+	// ---- (c2) DSA signatures: the 40-byte wire form (two 20-byte big-endian integers) must verify
+	// with the independent implementation, also when r or s have leading zero bytes
+	sigs, short := 0, 0
+	for _, base := range []string{"A", "B"} {
+		priv, rpriv := world.DSAKey(base)
+		srng := rand.New(rand.NewSource(*seed + 77))
+		for i := 0; i < *rounds*12; i++ {
+			h := make([]byte, 32)
+			srng.Read(h)
+			sig, err := priv.Sign(srng, h)
+			if err != nil || len(sig) != 40 {
+				report("dsa-sig", fmt.Sprintf("Sign returns %d bytes, %v", len(sig), err))
+				continue
+			}
+			sigs++
+			if sig[0] == 0 || sig[20] == 0 {
+				short++
+			}
+			if !rpriv.Pub().Verify(h, sig) {
+				report("dsa-sig", fmt.Sprintf("a signature made by the library (r=%x s=%x) does not verify in its wire form", sig[:20], sig[20:]))
+			}
+			if rest, ok := priv.PublicKey().Verify(h, append(append([]byte{}, sig...), 1, 2, 3)); !ok || !bytes.Equal(rest, []byte{1, 2, 3}) {
+				report("dsa-sig", "the library does not verify its own signature in wire form")
+			}
+			if rs, err := rpriv.Sign(srng, h); err == nil {
+				if _, ok := priv.PublicKey().Verify(h, rs); !ok {
+					report("dsa-sig", "a signature made by the independent implementation is refused")
+				}
+			}
+		}
+	}
+	fmt.Printf("CODECSIGS %d leadingzero=%d\n", sigs, short)
 	// ---- (d) values that do not fit a 16-bit TLV length: refused, or transmitted intact
 	big16 := 0
 	for _, version := range []int{2, 3} {
